@@ -57,6 +57,7 @@ type Features struct {
 	Broad       bool // many policies with mostly empty selectors: several policies select the same pods
 	Large       bool // more than a bucket's worth of everything: maps grow, outputs get long
 	DefaultNS   bool // one namespace is `default`, and resources in it may leave the namespace field out
+	OnlyIP      bool // every rule peer is an ipBlock (workloads talk to addresses only)
 }
 
 var allKinds = []string{"Deployment", "ReplicaSet", "StatefulSet", "DaemonSet", "Job", "CronJob", "ReplicationController", "Pod"}
@@ -363,6 +364,10 @@ func randNPPorts(r *rng, f *Features, toIP bool) []netv1.NetworkPolicyPort {
 }
 
 func randNPPeers(r *rng, f *Features) (peers []netv1.NetworkPolicyPeer, hasIP bool) {
+	if f.OnlyIP {
+		c := pick(r, cidrs)
+		return []netv1.NetworkPolicyPeer{{IPBlock: &netv1.IPBlock{CIDR: c.c}}}, true
+	}
 	if r.chance(1, 5) {
 		return nil, false // no peers: everything
 	}
